@@ -18,6 +18,14 @@ class Decoder24b(Decoder):
                         w:int, h:int,
                         padding_w:int, padding_h:int,
                         width:int, w_size:int) -> bytes:
+        # The image starts at (padding_w, padding_h) of the canvas: its scan
+        # lines hold w - padding_w pixels and there are h - padding_h of them
+        canvas_w = w
+        canvas_h = h
+        w = w - padding_w
+        h = h - padding_h
+        width = w*4
+
         # Create a white image
         data = bytearray(width * h)
         logging.debug("w: %d witdh: %d", w, width)
@@ -81,11 +89,11 @@ class Decoder24b(Decoder):
         w2 = w*2
         w1 = w
         # Every row of a BMP image starts at a multiple of four bytes
-        stride = w3 + ((4 - (w3%4))%4)
-        dataMix = bytearray(stride * h)
+        stride = canvas_w*3 + ((4 - ((canvas_w*3)%4))%4)
+        dataMix = bytearray(stride * canvas_h)
         for y in range(0, h):
             yw4 = y*w4
-            yw3 = y*stride
+            yw3 = y*stride + padding_w*3
             for x in range(0, w):
                 sr = yw4 + w3 + x
                 dr = yw3 + x*3 + 0
